@@ -499,6 +499,17 @@ class BaseDiscretizer(BaseEstimator, TransformerMixin):
         """
         _ = y  # unused argument
 
+        # checking for quantitative columns (strings can not be compared to quantiles)
+        not_numeric = [
+            feature
+            for feature in self.quantitative_features
+            if X[feature].dtype == object and any(isinstance(value, str) for value in X[feature])
+        ]
+        assert len(not_numeric) == 0, (
+            f" - [Discretizer] Non-numeric features: {str(not_numeric)} in provided "
+            "quantitative_features. Please check your inputs."
+        )
+
         # dataset length
         x_len = X.shape[0]
 
